@@ -410,6 +410,15 @@ func c20LoadContent(d c20Dir, content *string, limit int) (string, string) {
 	return c20FormsWire(c20HistForms(h)), msg
 }
 
+// c20Scribble overwrites the runes of a form that was handed to Add.
+func c20Scribble(rf repl.Form) {
+	for _, l := range rf {
+		for i := range l {
+			l[i] = '#'
+		}
+	}
+}
+
 // c20Apply runs one operation on the implementation, snapshotting the directory at every hook point.
 func c20Apply(d c20Dir, h *repl.History, op c20Op) (snaps []c20Snap, panicMsg string) {
 	if c20HaveHooks {
@@ -426,9 +435,17 @@ func c20Apply(d c20Dir, h *repl.History, op c20Op) (snaps []c20Snap, panicMsg st
 	}()
 	switch op.Kind {
 	case "A":
-		h.Add(c20ToRepl(op.Form))
+		rf := c20ToRepl(op.Form)
+		h.Add(rf)
+		c20Scribble(rf) // the caller (the editor) goes on changing its lines: the history must hold a copy
 	case "C":
-		h.Clear(op.A, op.B)
+		// (clear-history) calls Clear of the embedded Stash, History.Clear is the method of the type
+		// itself: both must do the same to memory and file
+		if (op.A+op.B)%2 == 0 {
+			h.Stash.Clear(op.A, op.B)
+		} else {
+			h.Clear(op.A, op.B)
+		}
 	case "L":
 		h.SetLimit(op.N)
 	}
@@ -940,6 +957,32 @@ func c20Sweep(c *lib.Ctx) []c20Case {
 			c20Case{Cell: fmt.Sprintf("crash/clear-all-%d", k), Limit: 5, Events: append([]c20Op{c20A(plain(0)), c20A(plain(1)), x(c20Op{Kind: "C", A: 0, B: -1}, 5)}, tail...)},
 			c20Case{Cell: fmt.Sprintf("crash/clear-recent-%d", k), Limit: 9, Events: append([]c20Op{c20A(plain(0)), c20A(plain(1)), c20A(plain(2)), c20A(plain(3)), x(c20Op{Kind: "C", A: 0, B: 0}, 3)}, tail...)},
 		)
+	}
+	// a compaction at a three digit limit (max = 110)
+	{
+		var evs []c20Op
+		for i := 0; i < 225; i++ {
+			evs = append(evs, c20A(plain(i)))
+		}
+		cases = append(cases, c20Case{Cell: "limit/100", Limit: 100, Events: append(evs, c20Op{Kind: "R", N: 100})})
+	}
+	// LineReader reads 4096 bytes at a time: a newline, a tab and a multi-byte character exactly at, before
+	// and after the end of the first and second buffer
+	for _, off := range []int{4094, 4095, 4096, 4097, 8191, 8192, 8193} {
+		for _, kind := range []string{"nl", "tab", "rune"} {
+			var first string
+			switch kind {
+			case "nl": // the newline of the first line is byte number off
+				first = strings.Repeat("x", off-1) + "\n"
+			case "tab":
+				first = strings.Repeat("x", off-1) + "\t(y)\n"
+			default: // the second byte of é is byte number off
+				first = strings.Repeat("x", off-2) + "é z\n"
+			}
+			content := first + "(second é)\n(third\t 3)\n"
+			cases = append(cases, c20Case{Cell: fmt.Sprintf("linereader/%s-at-%d", kind, off), Limit: 10, Hist0: &content,
+				Events: []c20Op{{Kind: "R", N: 10}, c20A(plain(0)), {Kind: "R", N: 10}}})
+		}
 	}
 	// more than one LineReader buffer (4096 bytes) of history
 	var long []c20Op
